@@ -13,6 +13,7 @@ import (
 
 	pb "google.golang.org/protobuf/proto"
 
+	"github.com/oxia-db/oxia/common/concurrent"
 	time2 "github.com/oxia-db/oxia/common/time"
 	"github.com/oxia-db/oxia/common/vhook"
 	"github.com/oxia-db/oxia/proto"
@@ -234,8 +235,53 @@ func runC06Routes(tier string, seed uint64, idx int) core.Result {
 	imageAt, wipeAt, bulkAt, bulkDelAt := n/4+rng.IntN(n/4), n/2+rng.IntN(n/4), rng.IntN(n/3), n/3+rng.IntN(n/3)
 	imgDir := filepath.Join(c.Dir, "n1-image")
 	haveImage := false
+	backlogAt := n*3/4 + rng.IntN(n/8)
 	for i := 0; i < n; i++ {
 		switch {
+		case i == backlogAt:
+			// route 7: a node is elected while it still holds entries above its applied offset (a burst is in
+			// flight when the election comes) and applies them through the become-leader path
+			for j := 0; j < 16; j++ {
+				p := &proto.PutRequest{Key: fmt.Sprintf("bl/%02d", j%9), Value: []byte(fmt.Sprintf("x%d", j)),
+					SecondaryIndexes: []*proto.SecondaryIndex{{IndexName: "ia", SecondaryKey: fmt.Sprintf("t%d", j%5)}, {IndexName: "ib", SecondaryKey: fmt.Sprintf("u%d", j)}}}
+				lc.Write(context.Background(), &proto.WriteRequest{Shard: pb.Int64(0), Puts: []*proto.PutRequest{p}},
+					concurrent.NewOnce(func(*proto.WriteResponse) {}, func(error) {}))
+			}
+			term++
+			applied := map[string]int64{}
+			for _, nd := range c.Nodes {
+				applied[nd.Name] = nd.AppliedOffset()
+			}
+			heads := c.Fence(term, c.Nodes)
+			if len(heads) != 3 {
+				r.Inconclusive(fmt.Sprintf("only %d nodes fenced in term %d", len(heads), term))
+				return r.Done()
+			}
+			best := rc.PickLeader(heads)
+			newLeader := best[0]
+			for _, b := range best {
+				if b != leaderName {
+					newLeader = b
+				}
+			}
+			backlog := heads[newLeader].Offset - applied[newLeader]
+			if err := c.Install(term, newLeader, 3, heads); err != nil {
+				viol("reelection-failed", scrubErr(err), trace)
+				return r.Done()
+			}
+			leaderName = newLeader
+			ln = c.Node(leaderName)
+			var lerr error
+			if lc, lerr = ln.Leader(); lerr != nil {
+				r.Inconclusive(lerr.Error())
+				return r.Done()
+			}
+			r.Count("elections_with_a_burst_in_flight", 1)
+			r.Max("max:unapplied_entries_at_election", backlog)
+			if backlog >= 2 {
+				g.feat["elected-with-backlog"] = true
+			}
+			trace = append(trace, fmt.Sprintf("election term %d inside a burst -> %s with %d unapplied entries", term, newLeader, backlog))
 		case i == bulkAt:
 			for j := 0; j < 150; j += 50 {
 				req := &proto.WriteRequest{Shard: pb.Int64(0)}
@@ -350,9 +396,9 @@ func runC06Routes(tier string, seed uint64, idx int) core.Result {
 	dl := time.Now().Add(30 * time.Second)
 	for {
 		okAll := true
-		for _, name := range []string{"n1", "n2"} {
-			st, err := c.Node(name).GetStatus()
-			if err != nil || st.CommitOffset < ls.CommitOffset-1 {
+		for _, nd := range c.Nodes {
+			st, err := nd.GetStatus()
+			if err != nil || st.CommitOffset < ls.CommitOffset-1 || (nd.Name != leaderName && nd.AppliedOffset() != st.CommitOffset) {
 				okAll = false
 			}
 		}
@@ -374,12 +420,25 @@ func runC06Routes(tier string, seed uint64, idx int) core.Result {
 	var reps []rep
 	routeOf := map[string]string{"n0": "n0-live", "n1": "n1-live+crash-image-replay", "n2": "n2-snapshot+tail"}
 	for _, nd := range c.Nodes {
-		d, err := shard.CanonicalDump(nd.KV())
-		if err != nil {
-			r.Inconclusive("dump: " + err.Error())
-			return r.Done()
+		var d map[string]string
+		var at int64
+		for try := 0; ; try++ {
+			at = nd.AppliedOffset()
+			var err error
+			if d, err = shard.CanonicalDump(nd.KV()); err != nil {
+				r.Inconclusive("dump: " + err.Error())
+				return r.Done()
+			}
+			if nd.AppliedOffset() == at {
+				break // nothing was applied while the dump was taken
+			}
+			if try > 50 {
+				r.Inconclusive("a replica kept applying entries while it was dumped")
+				return r.Done()
+			}
+			time.Sleep(5 * time.Millisecond)
 		}
-		reps = append(reps, rep{routeOf[nd.Name], nd.AppliedOffset(), d})
+		reps = append(reps, rep{routeOf[nd.Name], at, d})
 	}
 	seenCommit := map[int64]bool{}
 	for _, rp := range append([]rep{}, reps...) {
@@ -387,7 +446,21 @@ func runC06Routes(tier string, seed uint64, idx int) core.Result {
 			continue
 		}
 		seenCommit[rp.commit] = true
-		d, applied, err := foldWal(ln.Wal(), rp.commit, filepath.Join(c.Dir, "fold"))
+		// the fold needs a log that starts at offset 0: a node rebuilt from a snapshot only holds the tail
+		var full wal.Wal
+		for _, nd := range c.Nodes {
+			if w := nd.Wal(); w != nil && w.FirstOffset() == 0 && w.LastOffset() >= rp.commit {
+				full = w
+				if nd.Name == leaderName {
+					break
+				}
+			}
+		}
+		if full == nil {
+			r.Count("folds_skipped_no_complete_log", 1)
+			continue
+		}
+		d, applied, err := foldWal(full, rp.commit, filepath.Join(c.Dir, "fold"))
 		if err != nil {
 			viol("fold-failed", fmt.Sprintf("folding the leader's log up to %d stopped after %d entries: %s", rp.commit, applied, scrubErr(err)), trace)
 			return r.Done()
